@@ -102,10 +102,13 @@ def extract(profile="dev", force=False):
     try:
         files = sorted((os.path.join(CACHE, "facts", f) for f in os.listdir(os.path.join(CACHE, "facts")) if f.endswith(".json")), key=os.path.getmtime)
         now = time.time()
-        for f in files[:-48]:
-            if now - os.path.getmtime(f) > 900:      # never evict a file another process may be about to load
+        for f in files[:-400]:
+            if now - os.path.getmtime(f) > 7200:      # never evict a file another process may be about to load (a long check reloads it in its workers)
                 os.remove(f)
         for f in os.listdir(os.path.join(CACHE, "facts")):
+            if ".json.tmp." in f and now - os.path.getmtime(os.path.join(CACHE, "facts", f)) > 3600:
+                os.remove(os.path.join(CACHE, "facts", f))       # left behind by an interrupted extraction
+                continue
             if f.endswith(".lock") and not os.path.exists(os.path.join(CACHE, "facts", f[:-5])):
                 os.remove(os.path.join(CACHE, "facts", f))
     except OSError:
